@@ -24,6 +24,9 @@ extern "C" {
 #include <eav.h>
 #include <eav/auto_tld.h>
 }
+#ifdef HAVE_IDNKIT
+extern "C" { void sim_ctx_reset(void); extern int g_sim_nreports; extern char g_sim_report_cls[8][64]; extern char g_sim_report_detail[8][160]; }
+#endif
 namespace rt { void name_range(const void *p, size_t n, const std::string &name); void clear_named(); const char *set_process_locale(const char *name); }
 
 using std::string;
@@ -147,8 +150,13 @@ static void run_program(int tid, Shared *sh, bool concurrent) {
         } break;
         case ADOM: { rt::enter_sut(); int r = is_ascii_domain(dom, end); rt::leave_sut(); snprintf(b, sizeof b, "ADOM rc=%d", r); out.push_back(b); } break;
         case UDOM: {
+#ifdef HAVE_IDNKIT
+            if (confirmed != 3) { out.push_back("UDOM skipped"); break; }      // needs the object's live resolver context
+            idn_result_t ir = idn_success; rt::enter_sut(); int r = is_utf8_domain(e->idn, e->actions, &ir, dom, end, op.v ? true : false); rt::leave_sut();
+#else
             int ir = 0; rt::enter_sut(); int r = is_utf8_domain(&ir, dom, end, op.v ? true : false); rt::leave_sut();
-            snprintf(b, sizeof b, "UDOM tld=%d rc=%d idn=%d", (int)(op.v ? 1 : 0), r, ir); out.push_back(b);
+#endif
+            snprintf(b, sizeof b, "UDOM tld=%d rc=%d idn=%d", (int)(op.v ? 1 : 0), r, (int)ir); out.push_back(b);
         } break;
         case IP4: case IP6: case IPADDR: {
             const char *bs = dom, *be = end;
@@ -169,7 +177,12 @@ static void run_program(int tid, Shared *sh, bool concurrent) {
         case EMAIL: {
             bool tld = ((int)op.v >> 2) & 1; eav_result_t *r = nullptr;
             rt::enter_sut();
+#ifdef HAVE_IDNKIT
+            if (((int)op.v & 3) == 3 && confirmed != 3) { rt::leave_sut(); out.push_back("EMAIL skipped"); break; }
+            switch ((int)op.v & 3) { case 0: r = is_822_email(s, n, tld); break; case 1: r = is_5321_email(s, n, tld); break; case 2: r = is_5322_email(s, n, tld); break; default: r = is_6531_email(e->idn, e->actions, s, n, tld); }
+#else
             switch ((int)op.v & 3) { case 0: r = is_822_email(s, n, tld); break; case 1: r = is_5321_email(s, n, tld); break; case 2: r = is_5322_email(s, n, tld); break; default: r = is_6531_email(s, n, tld); }
+#endif
             rt::leave_sut();
             string rs = res_str(r);
             rt::enter_sut(); eav_result_free(r); rt::leave_sut();
@@ -202,6 +215,9 @@ static void run_plan(const Plan &p, bool want_log, RunOut &ro, bool count = true
     auto viol = [&](const string &c, const string &d) { Viol v; v.cls = c; v.detail = d; ro.viols.push_back(v); rec("VIOLATION " + c + " | " + d); };
     Shared sh; sh.plan = &p;
     rt::clear_named();
+#ifdef HAVE_IDNKIT
+    sim_ctx_reset(); g_sim_nreports = 0;
+#endif
     if (!rt::set_process_locale(p.locale.c_str())) rt::set_process_locale("C");
     int si = 0;
     for (auto &op : p.ops) if ((op.k == IS_EMAIL || op.k >= LOCAL) && !sh.strings.count(op.a)) {
@@ -250,6 +266,10 @@ static void run_plan(const Plan &p, bool want_log, RunOut &ro, bool count = true
         if (res.races.size() > 1) d += " (+" + std::to_string(res.races.size() - 1) + " more racing pairs)";
         viol(b, d);
     }
+#ifdef HAVE_IDNKIT
+    // the idnkit stand-in checks every create / destroy / use of a resolver context
+    if (g_sim_nreports > 0) viol(string("C14:") + g_sim_report_cls[0], g_sim_report_detail[0]);
+#endif
     // ---- oracle 3: progress
     if (res.deadlock) viol("C14:deadlock", "all unfinished threads are blocked");
     if (res.budget_exceeded) viol("C14:no-progress", "run exceeded 20x the sequential step count");
